@@ -38,13 +38,15 @@ def check_aead(line, toks):
             v.append(('oneshot-decrypt-plaintext', 'plaintext mismatch'))
         return v
     if op == 'aead_inc':
-        aad = b''; data_in = b''; mode = None
+        aad = b''; data_in = b''; mode = None; zero_aad = 0
         ti = 0
         v = []
         for s in f[4:]:
             p = s.split('.')
             if p[0] == 'a':
                 aad += expand(p[1])
+            elif p[0] == 'az':
+                zero_aad += int(p[1])       # that many zero bytes of AAD, fed in chunks; never materialised here
             elif p[0] in ('E', 'D'):
                 mode = p[0]
             elif p[0] in ('e', 'em', 'd', 'dm'):
@@ -58,6 +60,23 @@ def check_aead(line, toks):
                     return v
                 data_in += d
             elif p[0] == 'fin':
+                if zero_aad:
+                    assert not aad
+                    ct = stream(rounds, key, nonce, data_in) if mode == 'E' else data_in
+                    import struct
+                    otk = o.chacha_ietf_block(key, nonce, 0, rounds)[:32]
+                    nblk = (zero_aad + 15) // 16
+                    want = o.poly1305_zero_prefix(otk, nblk, ct + o.pad16(ct) + struct.pack('<QQ', zero_aad, len(ct)))
+                    if mode == 'E':
+                        got = toks[ti:ti + 2]; ti += 2
+                        if got != [hx(want), hx(want)]:
+                            v.append(('incremental-encrypt-tag', 'AAD of %d zero bytes: expected %s got %r' % (zero_aad, hx(want), got)))
+                    else:
+                        good = want == expand(p[1])
+                        t = toks[ti] if ti < len(toks) else None; ti += 1
+                        if (t == 'T') != good:
+                            v.append(('incremental-accepts-wrong-tag' if t == 'T' else 'incremental-rejects-right-tag', 'AAD of %d zero bytes: verdict %s, tag is %s' % (zero_aad, t, 'correct' if good else 'wrong')))
+                    continue
                 if mode == 'E':
                     ct = stream(rounds, key, nonce, data_in)
                     tag = hx(tag_of(rounds, key, nonce, aad, ct))
